@@ -147,6 +147,13 @@ Theorem C03_whole_model :
 Proof. exact run_pos. Qed.
 Print Assumptions C03_whole_model.
 
+(** the side condition is discharged for every grammar built from the public combinators *)
+Theorem C03_whole_model_public :
+  forall m, 1 <= tabw m -> forall t, wf_text t ->
+  forall fuel g lx c st, public_g g = true -> PosOK m t lx -> log_ok m t st -> cn m t (run fuel g lx c st).
+Proof. exact run_pos_public. Qed.
+Print Assumptions C03_whole_model_public.
+
 (** what the three predicates say: every span of a value, every span / position of an error *)
 Theorem C03_whole_model_meaning :
   forall m t,
